@@ -14,13 +14,14 @@ def _chunks(seq, n):
         yield seq[i:i + n]
 
 
-def _gen(ctx, L, face, path, seg_every, seg_off, pair_every, pair_off):
+def _gen(ctx, L, face, path, seg_every, seg_off, pair_every, pair_off, ulp_n=0, ulp_seed=0):
     lvl = len(path)
     lo_digits = path[-13:] if lvl > 13 else path
     hi_digits = path[:-13] if lvl > 13 else []
     num = lambda ds: sum(d * 4 ** (len(ds) - 1 - i) for i, d in enumerate(ds))
     consts = {"L": L, "AnchorFace": face, "AnchorLevel": lvl, "AnchorHi": num(hi_digits), "AnchorLo": num(lo_digits),
-              "SegEvery": seg_every, "SegOff": seg_off, "PairEvery": pair_every, "PairOff": pair_off}
+              "SegEvery": seg_every, "SegOff": seg_off, "PairEvery": pair_every, "PairOff": pair_off,
+              "UlpN": ulp_n, "UlpSeed": ulp_seed}
     r = ctx.tlc("Gen_CellGeom", vlib.cfg(constants=consts, invariants=INV), workers=8, timeout=1200, heap="6g")
     root = r.tagged["ROOT"][0]
     if root["apath"] != path:
@@ -44,6 +45,10 @@ def _cases(root, cases, face):
     return out
 
 
+def _ulp_cases(cases):
+    return [c for c in cases if c["op"] == "c12ulp"]
+
+
 def run(ctx):
     rnd = random.Random(ctx.seed)
     q = ctx.quick()
@@ -62,6 +67,9 @@ def run(ctx):
         "cross-face DistanceToCell == 0 is not predicted (only same-root pairs, where the uv rectangles share bit-identical bounds)",
         "the same model cases are embedded under every face of the root's parity (the tables depend on face % 2 only); "
         "RectBound/CapBound are evaluated for the cell with the same path on all six faces (own vertices, centre, 84 descendant centres)",
+        "boundary-ulp class: points on a cell boundary st = k/2^level and up to 6 ulps beside it in u/v, normalised, "
+        "nudged by up to 3 ulps per xyz coordinate and round-tripped through LatLng; the leaf is the one the library itself "
+        "assigns (CellFromPoint), containment in the leaf and in its 30 ancestors is demanded (prefix relation; closed cells)",
         "long edge targets (95..175 degrees through / near the antipode of the cell centre): MaxDistanceToEdge is compared with "
         "the library's own point-to-edge and point-to-point distances of sampled cell points, and with 4 - DistanceToEdge(-a,-b)",
     ]
@@ -76,10 +84,13 @@ def run(ctx):
         full = (not q) or parity == first
         if q and full:
             faces = rnd.sample(faces, 2)
+        # the boundary-ulp class (all six faces, levels 1..30) rides on the first run
+        ulp_n = (16 if q else 240) if parity == first else 0
         root, cases = _gen(ctx, L_top if full else 2, parity, [], 31 if q else 5, rnd.randrange(5), 5 if q else 1,
-                           rnd.randrange(64))
+                           rnd.randrange(64), ulp_n, rnd.randrange(60000))
         for f in faces:
             runs += _cases(root, cases, f)
+        runs += _ulp_cases(cases)
     # deep embeddings: a leaf-level anchor (model probes are real leaf cells) and mid-level anchors
     anchors = []
     Ld = 4
